@@ -111,6 +111,8 @@ pub mod sets {
         pub fn is_empty(&self) -> (r: bool) ensures r == (self@.len() == 0) { unimplemented!() }
         #[verifier::external_body]
         pub fn contains(&self, x: &T) -> (r: bool) ensures r == self@.contains(*x) { unimplemented!() }
+        #[verifier::external_body]
+        pub fn clear(&mut self) ensures final(self)@ == Set::<T>::empty(), final(self).order() == Seq::<T>::empty() { unimplemented!() }
         /// true iff the value was newly inserted (appended to the order)
         #[verifier::external_body]
         pub fn insert(&mut self, value: T) -> (r: bool)
